@@ -1,6 +1,6 @@
 """Claimed level per property (text for MANIFEST.json)."""
 HOOK_COMMITS = ["f85b327"]
-FIX_COMMITS = ["1fe7dcd", "1179cbc", "91f131a", "b2341ca", "1a02c9c", "cb766b4"]
+FIX_COMMITS = ["1fe7dcd", "1179cbc", "91f131a", "b2341ca", "1a02c9c", "cb766b4", "3c0ee07", "85dfccd", "ddc4a72", "b30657a", "8d1d16c"]
 TB = ("Trusted: Coq 8.16.1 kernel (vm_compute only for finite sweeps/witnesses), ExtrOcamlBasic extraction + OCaml driver and the Rust harness "
       "(correspondence only, bounded by its generators). ")
 LEVELS = {
@@ -71,5 +71,30 @@ LEVELS = {
     "C07": {
         "text": "Machine-checked theorem: in Default mode a verifying COMPLETE history proof yields exactly the label's true account newest first (nothing hidden at either end, no gaps, duplicates, reordering, wrong values or epochs) or exhibits a collision; and for every parameter each accepted entry is a true version with its true value and epoch. Uses the marker theorem (n+1 is always a future marker) and non-membership soundness. Verifier model tied to the code on adversarial histories incl. tombstones and late/missing stale markers; known finding K2 (tombstoned version 1 carries an unauthenticated epoch) is reproduced on the real code and listed.",
         "note": TB + "PARTIAL: MostRecent-N exactness, the AllowMissingValues statement outside K2 and the late-stale-marker rejection are decided by correspondence + oracle.",
+    },
+    "C10": {
+        "text": "Machine-checked theorem over the storage-manager model, generic in the program a publish runs inside its transaction: begin; ANY sequence of storage operations with ANY database call rejected and ANY cache evictions; then rollback, a commit the database rejects, or a commit refused for lack of an epoch record => database unchanged, no transaction open, log empty, cache coherent (so every later read answers as before). On the implementation, exhaustive fault enumeration over every storage operation index of publishes of every shape, cached/uncached, sequential/parallel, with database comparison and retry-equals-twin; three genuine defects found this way (cache filled before a rejected write; root hash read after commit; detached insertion task writing after rollback) were repaired.",
+        "note": TB + "The directory-level control flow (rollback on insertion error, join of spawned tasks, root hash before commit) is decided by the fault enumeration on the real code, the storage-level theorem covers every program shape.",
+        "technique": "Coq proof over the storage-manager model + exhaustive fault enumeration on the implementation",
+    },
+    "C11": {
+        "text": "Machine-checked theorem: if every record of a commit has the shape (new label / updated node keeping the old latest as previous / old record) relative to the store at epoch E, then for ANY subset of the batch written, every node lookup as of E, the whole tree a reader reconstructs and the root hash it reports are those before the commit; value states stamped E+1 are invisible at E. The premise is evaluated by the model on every recorded real commit batch, the reader-side version selection is tied to the code through hook H2, and crash points (all prefixes of several orders + random subsets) are replayed on the real code with a second instance.",
+        "note": TB + "Premise commit_shape is checked per run on real batches rather than derived from a store-level insertion model.",
+    },
+    "C12": {
+        "text": "Machine-checked theorem on the publish protocol (mutex with FIFO hand-over, read epoch, commit, release) for ANY number of tasks and ANY schedule: finished publishes return pairwise distinct epochs, exactly the consecutive epochs e0+1..e0+k in commit order; without the mutex (the code before the fix) the refutation schedule is a theorem too. The real code is driven under explicit schedules at storage-operation granularity (exhaustive single pre-emption pairs for two publishes, random for three) with serial-order comparison of the final database; the defect (both publishes returned the same epoch) was found and repaired.",
+        "note": TB + "Model granularity: one model step = one or more storage operations; pre-emption inside a storage operation / OS threads are not modelled.",
+    },
+    "C13": {
+        "text": "Machine-checked theorems at the store level: version selection never returns a node version newer than the epoch a request read (and reports an error when both retained versions are newer - an instance lagging >= 2 epochs errors instead of answering from a later epoch), and all lookups as of that epoch are unchanged while a publish is in flight. On the implementation, reader requests are interleaved with publishes under explicit schedules for writer / separate / lagging cached instances plus the change poller; two genuine defects (wrong node version for lagging readers; history proofs built against a re-read epoch) were found and repaired.",
+        "note": TB + "PARTIAL: the end-to-end statement for all interleavings is decided by schedule exploration on the real code; K3 (read-fill racing a write-through on one cache key) is a stated limitation outside the explored schedule granularity.",
+    },
+    "C14": {
+        "text": "The model has no parallelism / cache / feature / object-state parameter: every configuration of the implementation is compared with the same model outputs and with the sequential uncached run (epoch hashes, stored state, verification outcomes, verified results), incl. a second binary without the preload / parallel-VRF features, restarts before every call and the read-only wrapper. Proved in Coq: batch insertion of distinct equal-length leaves does not depend on their order (sorting is canonical).",
+        "note": TB + "PARTIAL: sub-batch splitting and the equivalence of parallel insertion are decided by the matrix runs; compile-time features by two binaries.",
+    },
+    "C20": {
+        "text": "Machine-checked theorems: tombstoning rewrites only the value field of the label's value states with epoch <= cut-off (node records, epoch record, other users, key set untouched); the epoch hash is the same value; other labels' lookups and the label's own lookup (cut-off before its latest update) return the identical proof; further publishes commute with tombstoning. Model tied to the code (state, history proofs, both verification modes, publish after tombstone); on the implementation every cut-off epoch is exercised with structural equality of all proofs and the exact accept/reject pattern of Default vs AllowMissingValues.",
+        "note": TB + "The 'Default rejects exactly the histories with a tombstoned entry' statement is decided by oracle + verifier correspondence.",
     },
 }
